@@ -1,6 +1,6 @@
 (* C01 — only an intact, verified patch is ever handed out for boot.  Statements only; proofs are
    in theories/Handout.v.  No hypothesis on the world: any disk content (damage included). *)
-From UV Require Import Base Codec Model PMLemmas Inv Ban Handout.
+From UV Require Import Base Codec Model PMLemmas Inv Ban Handout Frame Frames2 Prov.
 
 (* Whatever a query reports (number or path), from ANY world: the reported number is the stored
    selection, its artifact file exists with exactly the recorded size and, under a signing key,
@@ -45,6 +45,39 @@ Theorem C01_invalid_not_reported :
             end).
 Proof. exact cs_next_invalid_not_reported. Qed.
 Print Assumptions C01_invalid_not_reported.
+
+(* "exactly the size it had when the patch passed hash verification at install time": from a disk
+   whose records were all issued by verified installs (the empty disk is one), after ANY history of
+   calls and damage -- artifacts, state.json and junk arbitrarily damaged; patches_state.json
+   deleted, garbled, or replaced by a stale copy -- the file a query hands out has exactly the
+   length of the inflated download that passed the hash gate when its record was installed. *)
+Theorem C01_size_is_install_size :
+  forall sha sigok zdec base (w0 : world) (ops : list op) (o : op) (w' : world) (x : out)
+         (log : list netobs) (n : N),
+    AllOk sha zdec base (w_disk w0) -> Forall (ok_op sha zdec base) ops ->
+    step sha sigok zdec base (fst (run sha sigok zdec base w0 ops)) o = (w', x, log) ->
+    reports o x n ->
+    exists m b bdl out,
+      nb (load_p (w_disk w')) = Some m /\ m_num m = n /\
+      arts (w_disk w') n = Some (AFile b) /\
+      inflate zdec base bdl = Some out /\ hash_ok sha out (m_hash m) = true /\ blen b = blen out.
+Proof. exact handout_size_provenance. Qed.
+Print Assumptions C01_size_is_install_size.
+
+(* the invariant behind it, for every step and every history *)
+Theorem C01_records_are_issued :
+  forall sha sigok zdec base (w : world) (ops : list op),
+    Forall (ok_op sha zdec base) ops -> AllOk sha zdec base (w_disk w) ->
+    AllOk sha zdec base (w_disk (fst (run sha sigok zdec base w ops))).
+Proof. intros. apply run_prov; assumption. Qed.
+Print Assumptions C01_records_are_issued.
+
+(* the premises are met by the empty disk, and a stale copy of an earlier file is admissible *)
+Example C01_fresh_is_ok : forall sha zdec base r, AllOk sha zdec base (fresh_disk r).
+Proof. exact AllOk_fresh. Qed.
+Example C01_stale_is_ok :
+  forall sha zdec base d, AllOk sha zdec base d -> ok_op sha zdec base (ODamage (DSetPj (JOk (load_p d)))).
+Proof. exact stale_is_ok. Qed.
 
 (* non-vacuity: a concrete world in which a patch is reported, and one where damage suppresses it *)
 Definition ex_sha (b : bytes) : bytes := b.
